@@ -203,10 +203,12 @@ class _BaseLayout(MaildirLayout[_MaildirT], metaclass=ABCMeta):
 
     def add_folder(self, name: str, delimiter: str) -> None:
         parts = self._split(name, delimiter)
-        for i in range(1, len(parts) - 1):
-            path = self._get_path(parts[0:i])
+        for i in range(1, len(parts)):
+            parent_parts = parts[0:i]
+            path = self._get_path(parent_parts)
             if not os.path.isdir(path):
-                raise FileNotFoundError(path)
+                parent_name = self._join(parent_parts, delimiter)
+                self.add_folder(parent_name, delimiter)
         path = self._get_path(parts)
         self._maildir(path, create=True)
         maildirfolder = os.path.join(path, 'maildirfolder')
@@ -237,7 +239,7 @@ class _BaseLayout(MaildirLayout[_MaildirT], metaclass=ABCMeta):
             raise FileNotFoundError(source_path)
         elif os.path.exists(dest_path):
             raise FileExistsError(dest_path)
-        for i in range(1, len(dest_parts) - 1):
+        for i in range(1, len(dest_parts)):
             parts = dest_parts[0:i]
             path = self._get_path(parts)
             if not os.path.isdir(path):
